@@ -593,4 +593,37 @@ def wfProg (p : Code.Prog) : Bool :=
      | some l => (p.wordAt? l).map (·.op) == some opStop
      | none => false)
 
+/-! ### the bool-only program as a tree transformation -/
+
+mutual
+/-- the tree the second writer effectively compiles: a `Capture` whose `Setmark`/`Capturemark` pair
+    `emitCapture` drops becomes a plain `Group` around its body (cf. `Spec.stripCaps` of Model/Quick.lean
+    on the specification's patterns) -/
+def stripTree (cfg : Cfg) : GoNode → GoNode
+  | .empty => .empty
+  | .bare t => .bare t
+  | .char t rtl ci ch => .char t rtl ci ch
+  | .set rtl ci s => .set rtl ci s
+  | .multi rtl ci s => .multi rtl ci s
+  | .ref rtl ci m => .ref rtl ci m
+  | .charloop t rtl ci ch m n => .charloop t rtl ci ch m n
+  | .setloop t rtl ci s m n => .setloop t rtl ci s m n
+  | .concat cs => .concat (stripList cfg cs)
+  | .alt cs => .alt (stripList cfg cs)
+  | .loop lzy m n c => .loop lzy m n (stripTree cfg c)
+  | .capture m n c => if emitCapture cfg m n then .capture m n (stripTree cfg c) else .group (stripTree cfg c)
+  | .group c => .group (stripTree cfg c)
+  | .poslook c => .poslook (stripTree cfg c)
+  | .neglook c => .neglook (stripTree cfg c)
+  | .atomic c => .atomic (stripTree cfg c)
+  | .backrefcond1 m y => .backrefcond1 m (stripTree cfg y)
+  | .backrefcond2 m y n => .backrefcond2 m (stripTree cfg y) (stripTree cfg n)
+  | .exprcond2 c y => .exprcond2 (stripTree cfg c) (stripTree cfg y)
+  | .exprcond3 c y n => .exprcond3 (stripTree cfg c) (stripTree cfg y) (stripTree cfg n)
+  | .other t => .other t
+def stripList (cfg : Cfg) : List GoNode → List GoNode
+  | [] => []
+  | c :: cs => stripTree cfg c :: stripList cfg cs
+end
+
 end RegexVerif.Writer
